@@ -371,15 +371,19 @@ def cells(prop, tier):
     # take-over window: A stops at t=1 with the computation pending exactly when B arrives, C arrives during B's computation;
     # 3 threads, one pre-emption (position 0..70), priority order fixed per cell
     for pr in range(6):
+        if prop == 'C05' and pr > 1 and tier != 'thorough':
+            continue
         out.append(Cell(name='%s_3t_takeover_prio%d' % (lp, pr), sig='lifeA: int, p1: int, q1: int',
                         pre=['0 <= lifeA <= 1 and 0 <= p1 <= 70 and 0 <= q1 <= 1'],
                         body='H.scen(%r, 1, 1, 2, 3, lifeA, 0, %d, p1, q1, 3, 1)' % (prop, pr),
                         tier=q, timeout=900, family=lp, weight=5))
     # computation longer than the 60 s safety window on a healthy loop: waiters time out, look again and must keep waiting
-    out.append(Cell(name='%s_2t_long_computation' % lp, sig='prio_idx: int, p1: int, failmask: int',
-                    pre=['0 <= prio_idx <= 1 and 0 <= p1 <= 160 and 0 <= failmask <= 1'],
-                    body='H.scen(%r, 70, 1, 1, 65, 0, failmask, prio_idx, p1, 0, 2, 2)' % prop,
-                    tier=q, timeout=900, family=lp, weight=5))
+    for fm in (0, 1):
+        for pr in (0, 1):
+            out.append(Cell(name='%s_2t_long_computation_f%d_prio%d' % (lp, fm, pr), sig='p1: int',
+                            pre=['0 <= p1 <= 160'],
+                            body='H.scen(%r, 70, 1, 1, 65, 0, %d, %d, p1, 0, 2, 2)' % (prop, fm, pr),
+                            tier=q, timeout=900, family=lp, weight=6))
     if prop == 'C06' or prop == 'C05':
         for gi, (dA, dB, dC, dur) in enumerate(GRID_QUICK[:2]):
             for ut in (False, True):
@@ -393,6 +397,8 @@ def cells(prop, tier):
                         pre=['0 <= lifeA <= 2 and 0 <= failmask <= 1 and 0 <= prio_idx <= 1 and 0 <= p1 <= 140'],
                         body='H.scen(%r, 1, 0, 2, 3, lifeA, failmask, prio_idx, p1, 0, 2, 2, -1, 0, False, True)' % prop,
                         tier='thorough', timeout=900, family=lp, weight=4))
+    if tier != 'thorough':
+        out = [c for c in out if c.tier == 'quick']
     out.append(Cell(name='twin_%s' % lp, sig='lifeA: int, prio_idx: int, p1: int', pre=['0 <= lifeA <= 2 and 0 <= prio_idx <= 1 and 0 <= p1 <= 3'],
                     body='H.twin(%r, lifeA, prio_idx, p1)' % prop, expect='refute', timeout=300, family=lp))
     if tier == 'thorough':
